@@ -10,7 +10,7 @@ class Undecided(Exception):
 
 
 class Walker:
-    def __init__(self, body, origins=None, atom=None, call=None, max_steps=400):
+    def __init__(self, body, origins=None, atom=None, call=None, max_steps=400, cut_loops=False):
         """atom(term) -> value | None for leaves of condition terms;
         call(term, argvals) -> value | None for opaque calls."""
         self.b = body
@@ -19,6 +19,7 @@ class Walker:
         self.atom = atom or (lambda t: None)
         self.call = call or (lambda t, a: None)
         self.max_steps = max_steps
+        self.cut_loops = cut_loops      # a path ends where it would enter a block for the second time (one iteration of each loop)
 
     # ---- term evaluation ---------------------------------------------------------
     def eval_terms(self, terms):
@@ -111,6 +112,9 @@ class Walker:
             else:
                 nxt = self.b.normal_succs(blk)
             for n in nxt:
+                if self.cut_loops and n in path:
+                    out.append((path, blk))
+                    continue
                 if path.count(n) > 1:
                     raise Undecided("loop on decision path")
                 stack.append((n, path + [n]))
